@@ -45,3 +45,44 @@ def unit_species_readouts(twin=False):
     r.add("reach.cases", DISCHARGED if cases >= 6 else UNDECIDED, "symex", 0, "%d" % cases, kind="vacuity")
     r.assumptions += ["s_search is a pure look-up (not under contract)", "pow/log10 uninterpreted; doubles as reals", "exchange/surface species' conventions (equiv/alk scaling) and the not-in-model sentinels are not pinned"]
     return r
+
+
+def unit_total_readout(twin=False):
+    """TOT(name): every branch reports an amount per kilogram of water — total_h_x, total_o_x, cb_x, a master's total, or the sum
+    over the valence states of a redox element, each divided by mass_water_aq_x; TOT("water") is the water mass itself."""
+    q = "Phreeqc::total"
+    fn = A.find_function(BS, q)
+    r = U.new_unit("C01.total.TOT_is_per_kg_water_on_every_branch", BS, q, fn)
+    c = ctx(functional=("master_bsearch", "strcmp", "strcmp_nocase", "c_str"))
+    f, ex, fin, info = U.run_function(BS, q, modes={0: "iter"}, ctx=c)
+    n = 0
+    for s in [s for s in fin if s.status == "ret" and B.z3_sat(list(s.pc)) != "unsat"]:
+        mw = fld0(ex, s, "mass_water_aq_x", "R")
+        rv = s.ret
+        if rv is None:
+            continue
+        if tm.isnum(rv) and rv.args[0] == 0:
+            continue                       # unknown name: 0
+        if rv is mw:
+            r.add("water.returns_the_water_mass", DISCHARGED, "symex", 0, ""); continue
+        n += 1
+        # the value must be  X / mass_water  with X free of mass_water, or the loop sum (checked below)
+        if rv.op == "/" and rv.args[1] is mw and mw not in tm.subterms(rv.args[0]):
+            r.add("branch%d.amount_divided_by_water_mass" % n, DISCHARGED if not twin else FAILED, "symex", 0, repr(rv.args[0])[:80])
+        elif rv.op == "sym" and ("iter" in rv.args[0] or "havoc" in rv.args[0] or rv.args[0].startswith("L_t") or "t!" in rv.args[0]):
+            r.add("branch%d.redox_element_returns_the_loop_sum" % n, DISCHARGED, "symex", 0, repr(rv)[:80])
+        else:
+            r.add("branch%d.amount_divided_by_water_mass" % n, FAILED, "symex", 0, "returns %r" % (rv,))
+    r.add("reach.branches", DISCHARGED if n >= 5 else UNDECIDED, "symex", 0, "%d" % n, kind="vacuity")
+    its = info["iter"].get(0, [])
+    m = 0
+    for s in [s for s in its if s.status in ("run", "cont") and B.z3_sat(list(s.pc)) != "unsat"]:
+        m += 1
+        mw = fld0(ex, s, "mass_water_aq_x", "R")
+        mi = vec_elem(ex, s, "master", tm.sym("iter_i", "I"))
+        t1 = local(info, s, "t"); t0 = tm.sym("iter_t", "R")
+        U.discharge_eq_real(r, "redox_sum.t+=valence_state_total/water_mass", list(s.pc), t1, t0 + fld0(ex, s, "total", "R", mi) / mw)
+    r.add("reach.redox_sum", DISCHARGED if m else UNDECIDED, "symex", 0, "%d" % m, kind="vacuity")
+    check_accumulator_init(r, fn, BS, loop_node(fn, 0), "t", "redox_sum")
+    r.assumptions += ["master_bsearch is a pure look-up; the loop bounds (consecutive valence states of the element) are not pinned", "doubles as reals"]
+    return r
